@@ -133,7 +133,7 @@ class SquidsHooks(GslHooks):
                 eq = a == b
                 return (1 if eq else 0) if base.endswith('==') else (0 if eq else 1)
             raise Unsupported('comparison of opaque values at %s' % it.loc(node))
-        if base in ('std::operator+',) or name in ('gsl_strerror', 'std::to_string'):
+        if (base in ('std::operator+',) and not (args and '_Bit_iterator' in (args[0].get('t') or ''))) or name in ('gsl_strerror', 'std::to_string'):
             return Opaque('string', None)
         if name.startswith('std::vector<') and name.split('>::')[-1].split('<')[0] == 'resize':
             from stdmodel import vec_parts
@@ -224,7 +224,7 @@ class SquidsHooks(GslHooks):
                 if f is None:
                     raise AnalysisBroken('system function %s not found' % fn.name)
                 ytmp = Region('driver.ytmp', dim, lambda k: Poly.var('Y%d' % k), 'heap')
-                dy = Region('driver.dydt', dim, None, 'heap')
+                dy = Region('driver.dydt', dim, lambda k: Poly.var('STALE%d' % k), 'heap')
                 self.stage_buffers = (ytmp, dy)
                 self.rhs_calls += 1
                 it.call(f, None, [Poly.var('t_stage'), Ptr(ytmp, 0), Ptr(dy, 0), par])
